@@ -589,10 +589,12 @@ CLASSES = {"reformat": Reformat, "rename": Rename, "commute": Commute,
 
 
 def main():
-    if len(sys.argv) < 3 or sys.argv[1] not in CLASSES:
+    if len(sys.argv) < 3 or not all(k in CLASSES
+                                    for k in sys.argv[1].split("+")):
         sys.stderr.write(__doc__)
         return 2
     kind, out = sys.argv[1], sys.argv[2]
+    kinds = kind.split("+")         # several classes, applied in turn
     only = None
     if "--only" in sys.argv:
         only = sys.argv[sys.argv.index("--only") + 1]
@@ -615,8 +617,11 @@ def main():
             except SyntaxError:
                 continue
             before = ast.dump(tree)
-            tree = CLASSES[kind]().visit(tree)
-            ast.fix_missing_locations(tree)
+            for k_ in kinds:
+                tree = CLASSES[k_]().visit(tree)
+                ast.fix_missing_locations(tree)
+                # (re-parse between passes: fresh nodes, fresh parents)
+                tree = ast.parse(ast.unparse(tree))
             if kind != "reformat" and ast.dump(tree) == before:
                 continue
             new = ast.unparse(tree) + "\n"
